@@ -33,6 +33,31 @@ CLAIMED = {
             'subsets by one equivalence query per policy name',
             'z3; real file system and oslo.config are used as they are; '
             'don\'t-care regions as stated in the property'),
+    'C04': ('5/C04', 'role:X against symbolic X, symbolic placeholder '
+            'values and symbolic role names (bounded strings over a mixed '
+            'alphabet) equals the case-insensitive membership formula built '
+            'from an explicit case-pair table, for all strings in the bound',
+            'z3; SymStr models of lower/==/in/% validated by witness '
+            'replay; alphabet restricted to one-to-one case mappings'),
+    'C06': ('5/C06', 'rule sets whose reference slots are symbolic (every '
+            'slot ranges over roles, recording checks, every rule name and '
+            'an undefined name) decide as the reference denotation for all '
+            'acyclic slot assignments, role subsets and leaf outcomes; '
+            'recording checks always see the enforced name; inlining a '
+            'reference never changes a decision (formula equivalence)',
+            'z3; acyclicity is a solver assumption over the slot choices'),
+    'C07': ('5/C07', 'do_raise off/on compared on the same symbolic input '
+            'for every row of the configuration table (rule kinds, '
+            'exception kinds and arguments, enforce/authorize, debug '
+            'logging, token scope): falsy return iff raise, exact '
+            'exception object, no other exception',
+            'z3; finite configuration table enumerated under solver '
+            'control'),
+    'C08': ('5/C08', 'the complete finite scope table through the real '
+            'load path with symbolic check outcomes: gate exactly when the '
+            'derived token scope is not among the registered scope types '
+            'and enforcement is on, otherwise exactly the check',
+            'z3; finite table; real files / oslo.config / oslo.context'),
 }
 
 PENDING_REASON = ('check not built yet in this session (work in progress; '
